@@ -76,6 +76,13 @@ def generate(tier, seed):
             reqs.append("(seq-filter %s %s)" % (f, q))
             reqs.append("(seq-find %s %s)" % (f, q))
             reqs.append("(seq-find %s %s 'dflt)" % (f, q))
+        for ho in ["(mapcar (lambda (x) (setq seen (cons x seen)) x) %s)", "(seq-map (lambda (x) (setq seen (cons x seen)) (list x)) %s)",
+                   "(seq-filter (lambda (x) (setq seen (cons x seen)) (consp x)) %s)", "(seq-find (lambda (x) (setq seen (cons x seen)) (equal (length seen) 3)) %s)",
+                   "(seq-reduce (lambda (acc x) (setq seen (cons (list acc x) seen)) x) %s 'init)",
+                   "(mapcar (lambda (x) (setq seen (cons x seen)) (if (equal (length seen) 2) (car 5) x)) %s)",
+                   "(seq-filter (lambda (x) (setq seen (cons x seen)) (if (equal (length seen) 2) (car 5) t)) %s)"]:
+            if rng.random() < 0.5: reqs.append("(progn (setq seen nil) (list (%s) seen))" % ("funcall (lambda () %s)" % (ho % q)))
+            else: reqs.append("(setq seen nil)"); reqs.append(ho % q); reqs.append("seen")
         reqs.append("(seq-reduce (lambda (acc x) (tick 3) (cons x acc)) %s nil)" % q)
         reqs.append("(seq-reduce 'cons %s 'init)" % q)
         reqs.append("(seq-reduce '+ '(1 2 3 4) 0)")
